@@ -202,6 +202,23 @@ for (let i = 0; i < N; i++) {
   for (const k of ["asked", "compared", "boundaries", "fs_changes"]) agg[k] += r[k];
   for (const v of r.violations) if (!first.has(v.class)) first.set(v.class, { index: i, run, v });
 }
+// recorded histories (corpus/regress_host.json: minimised replay files of the repaired host defects and of the
+// detections of independently written breaking changes), executed as explicit runs after the seeded ones
+agg.recorded_histories_replayed = 0;
+try {
+  const reg = JSON.parse(fs.readFileSync(path.join(HOME, "corpus/regress_host.json"), "utf8"));
+  let k = 0;
+  for (const e of reg) {
+    const r = e.run;
+    if (r.engine !== "hostleg" || r.kind === "watchloop" || !Array.isArray(r.ops)) continue;
+    const run = { files: r.files, ops: r.ops };
+    const res = exec(H, run, scratch);
+    agg.recorded_histories_replayed++;
+    for (const kk of ["asked", "compared", "boundaries", "fs_changes"]) agg[kk] += res[kk];
+    for (const v of res.violations) if (!first.has(v.class)) first.set(v.class, { index: 1e12 + k, run, v });
+    k++;
+  }
+} catch {}
 const lines = [];
 for (const [cls, { index, run }] of [...first.entries()].sort()) {
   const min = minimize(H, run, cls, scratch);
